@@ -545,8 +545,88 @@ Proof.
     intros i Hi. apply Hp. apply W in H. lia.
 Qed.
 
+(* ---------------------------------------------------------------- *)
+(** ** [ধরি]: redeclaration is an error only in the very same scope *)
+
+Section Redeclare.
+Variable libm : N -> f64 -> f64 -> f64.
+Variable clock : f64.
+Variable sched : N -> list (list N * value) -> list (list N * value).
+Notation eval := (eval libm clock sched).
+Notation exec_var := (exec_var libm clock sched).
+
+(** the initializer of a declarator, evaluated in [rho] ([nil] if there is none) *)
+Definition eval_init (f : nat) (init : option expr) (rho : nat) (s : state) : res value :=
+  match init with Some e => eval f e rho s | None => Ok VNil s end.
+
+(** A7. Once the initializer has evaluated to [v] in store [s1]:
+    - if [x] is bound in scope [rho] itself, the result is [Err RRedeclare] at the
+      declarator's line, carrying [s1] unchanged;
+    - otherwise -- whether or not an enclosing scope binds [x]: shadowing is never an
+      error -- [x] is defined in [rho], and only there ([define_only_current]);
+    - if the initializer itself fails or crashes, so does the declaration, identically. *)
+Theorem exec_var_redeclare f x init line rho s :
+  (forall v s1, eval_init f init rho s = Ok v s1 ->
+     (forall old, env_get_here rho x s1 = Some (Some old) ->
+        exec_var (S f) (x, init, line) rho s = Err RRedeclare line s1) /\
+     (env_get_here rho x s1 = Some None ->
+        exists s2, exec_var (S f) (x, init, line) rho s = Ok SigNone s2 /\
+          env_define rho x v s1 = Some s2 /\
+          bind_of s2 rho x = Some v /\ edom s2 rho = edom s1 rho ++ [x] /\
+          (forall i, i <> rho -> nth_error (envs s2) i = nth_error (envs s1) i) /\
+          (forall y, y <> x -> bind_of s2 rho y = bind_of s1 rho y) /\
+          (forall i, epar s2 i = epar s1 i))) /\
+  (forall e l s1, eval_init f init rho s = Err e l s1 -> exec_var (S f) (x, init, line) rho s = Err e l s1) /\
+  (forall s1, eval_init f init rho s = Crash s1 -> exec_var (S f) (x, init, line) rho s = Crash s1).
+Proof.
+  rewrite exec_var_S. fold (eval_init f init rho s).
+  split; [|split].
+  - intros v s1 E. rewrite E. cbn [bind]. split.
+    + intros old H. rewrite H. reflexivity.
+    + intros H. rewrite H.
+      assert (Hr : rho < length (envs s1)).
+      { unfold env_get_here in H. destruct (nth_error (envs s1) rho) eqn:En; [|discriminate].
+        eapply nth_error_lt; eauto. }
+      destruct (env_define_some rho x v s1 Hr) as [s2 D]. rewrite D. exists s2.
+      destruct (define_only_current _ _ _ _ _ D) as (A1 & A2 & A3 & A4 & A5 & _).
+      assert (Hb : bind_of s1 rho x = None).
+      { rewrite env_get_here_bind_of in H. apply Nat.ltb_lt in Hr. rewrite Hr in H. congruence. }
+      rewrite Hb in A4. auto 10.
+  - intros e l s1 E. rewrite E. reflexivity.
+  - intros s1 E. rewrite E. reflexivity.
+Qed.
+
+(** the converse: a redeclaration error raised by the declaration itself (not by its
+    initializer) means the name is bound in the current scope *)
+Theorem exec_var_redeclare_only_if f x init line rho s v s1 l s' :
+  eval_init f init rho s = Ok v s1 ->
+  exec_var (S f) (x, init, line) rho s = Err RRedeclare l s' ->
+  l = line /\ s' = s1 /\ exists old, env_get_here rho x s1 = Some (Some old).
+Proof.
+  intros E H. rewrite exec_var_S in H. fold (eval_init f init rho s) in H. rewrite E in H. cbn [bind] in H.
+  destruct (env_get_here rho x s1) as [[old|]|]; try discriminate.
+  - injection H as -> ->. eauto.
+  - destruct (env_define rho x v s1); discriminate.
+Qed.
+
+(** shadowing: an outer binding of [x] does not matter *)
+Corollary exec_var_shadows f x init line rho s v s1 outer :
+  eval_init f init rho s = Ok v s1 -> env_get_here rho x s1 = Some None ->
+  env_get rho x s1 = Some (Some outer) ->
+  exists s2, exec_var (S f) (x, init, line) rho s = Ok SigNone s2 /\ env_get_here rho x s2 = Some (Some v).
+Proof.
+  intros E H _. destruct (exec_var_redeclare f x init line rho s) as (A & _).
+  destruct (A v s1 E) as (_ & B). destruct (B H) as (s2 & R & D & Hb & _).
+  exists s2. split; [exact R|]. rewrite env_get_here_bind_of.
+  destruct (env_define_nth _ _ _ _ _ D) as (b & p & E1 & _ & _ & Hl).
+  apply nth_error_lt in E1. rewrite Hl. apply Nat.ltb_lt in E1. rewrite E1, Hb. reflexivity.
+Qed.
+
+End Redeclare.
+
 Print Assumptions env_get_innermost.
 Print Assumptions assign_updates_what_get_sees.
 Print Assumptions assign_frame.
 Print Assumptions define_only_current.
 Print Assumptions alloc_env_fresh.
+Print Assumptions exec_var_redeclare.
